@@ -985,6 +985,8 @@ func run(c *vf.Ctx) {
 			c.Logf("kx/cross-handshake: panic: %s", firstLines(detail, 14))
 		}
 	}
+	// ---- responses racing the retry of their request (PingPong.tla), on the long-lived router
+	pingPongStage(c, s, rng, record)
 	c.Logf("R: %d inputs", len(all))
 	byOutcome := map[string]int{}
 	seenClass := map[string]bool{}
